@@ -317,6 +317,70 @@ fn judge_cmplx(st: &mut Stats, rng: &mut Rng, class: &str, d: &DM<CRat>, m1: usi
 /// One live Banded<Rat> object put through a random sequence of queries (det, solve, product, element reads) and
 /// in-place mutators (index writes, every compound assignment, fill_band), compared with a dense model after each step:
 /// state carried from one call to the next (cached factorisations, stale buffers) must never show.
+/// (a) growth traps: in every column the diagonal candidate is the smallest, the first sub-diagonal is larger, the rows further
+///     down larger still (by factors 1.5..7.9): choosing anything but the LARGEST candidate gives multipliers above one and element
+///     growth 9^(n-1) in the last column; with the largest the backward error stays at a few units of u (limit here 64 n u).
+/// (b) units of the unknowns: the columns scaled by 2^(c_j), |c_j| <= 200. Column scaling leaves every pivot choice and every
+///     multiplier unchanged, so solve must return x_j * 2^(-c_j) bit for bit and det the exact multiple - although the pivots now
+///     span hundreds of binades (none of them is "negligible").
+fn growth_and_units(st: &mut Stats, rng: &mut Rng) {
+    st.next_case();
+    let n = rng.usize(3, 10);
+    let trap = rng.bool();
+    // (half of the traps are of Wilkinson's kind: consistent signs below the diagonal and a full last column, so that the
+    //  growth of a wrong pivot choice accumulates instead of cancelling)
+    let wilk = trap && rng.bool();
+    let (m1, m2) = if wilk { (rng.usize(2.min(n - 1), n - 1), n - 1) } else { (rng.usize(2.min(n - 1), n - 1), rng.usize(0, n - 1)) };
+    let cw = rng.range(6.0, 7.9);
+    let wstyle = rng.bool(); // first row full and zero diagonal below it, or 0.5 on the whole diagonal
+    let mut a = vec![vec![0.0f64; n]; n];
+    for i in 0..n { for j in 0..n { if inband(i, j, m1, m2) {
+        a[i][j] = if !trap { rng.int(-9, 9) as f64 }
+                  else if wilk { if j == n - 1 { 1.0 } else if i == 0 { if wstyle { 0.5 } else if j == 0 { 0.5 } else { 0.0 } } else if i == j { if wstyle { 0.0 } else { 0.5 } } else if i == j + 1 { 1.0 } else if i > j + 1 { -cw + 0.01 * i as f64 + 0.003 * j as f64 } else { 0.0 } }
+                  else if i == j { *rng.pick(&[0.5, 0.25, -0.5, 0.75]) }
+                  else if i == j + 1 { if rng.bool() { 1.0 } else { -1.0 } }
+                  else if i > j + 1 { rng.range(1.5, 7.9) * if rng.bool() { 1.0 } else { -1.0 } }
+                  else if j == (i + m2).min(n - 1) { 1.0 }
+                  else { rng.int(-2, 2) as f64 * 0.25 };
+    } } }
+    let rhs: Vec<f64> = (0..n).map(|i| if trap { 1.0 / (1.0 + i as f64) } else { rng.int(-9, 9) as f64 }).collect();
+    let mk = |a: &Vec<Vec<f64>>| { let mut b = Banded::<f64>::new(n, m1, m2, 0.0); for i in 0..n { for j in 0..n { if inband(i, j, m1, m2) { b[(i, j)] = a[i][j]; } } } b };
+    let b0 = mk(&a);
+    let desc = || format!("T=f64 n={} m1={} m2={} class={} dense={:?} rhs={:?}", n, m1, m2, if trap { "growth-trap" } else { "random-integers" }, a, rhs);
+    let x0 = match catch(|| (b0.solve(&Vector::create(rhs.clone())).vec, b0.det())) { Outcome::Ok(t) => t, _ => { st.count("skipped:growth-and-units:singular-or-refused"); return; } };
+    let (x0, d0) = x0;
+    if !fl::all_finite(&x0) || !d0.is_finite() || d0 == 0.0 { st.count("skipped:growth-and-units:singular-or-refused"); return; }
+    st.eval();
+    if trap {
+        let (r, an, xn, bn) = fl::residual_real(&a, &x0, &rhs);
+        let eta = fl::backward_error(r, an, xn, bn);
+        let lim = 64.0 * n as f64 * U;
+        st.max("f64:growth-trap:eta_over_64nu", eta / lim);
+        if !(eta <= lim) { st.violation("C04:solve:f64:backward-error", format!("growth trap: backward error {:e} > 64 n u = {:e} (pivoting by magnitude keeps every multiplier <= 1 here); x={:?}; {}", eta, lim, x0, desc())); return; }
+    }
+    // units
+    let cs: Vec<i32> = (0..n).map(|_| rng.int(-200, 200) as i32).collect();
+    let tot: i32 = cs.iter().sum();
+    let asc: Vec<Vec<f64>> = a.iter().map(|r| r.iter().enumerate().map(|(j, v)| v * 2f64.powi(cs[j])).collect()).collect();
+    let b1 = mk(&asc);
+    let inr = |v: f64| v == 0.0 || (v.abs() > 1e-280 && v.abs() < 1e280);
+    let want: Vec<f64> = x0.iter().enumerate().map(|(j, v)| v * 2f64.powi(-cs[j])).collect();
+    let dwant = d0 * 2f64.powi(tot / 2) * 2f64.powi(tot - tot / 2);
+    if !want.iter().all(|v| inr(*v)) || !inr(dwant) || !x0.iter().all(|v| inr(*v)) { return; }
+    st.eval();
+    match catch(|| (b1.solve(&Vector::create(rhs.clone())).vec, b1.det())) {
+        Outcome::Ok((x1, d1)) => {
+            if x1.iter().zip(&want).any(|(p, q)| p.to_bits() != q.to_bits() && !(*p == 0.0 && *q == 0.0)) { st.violation("C04:solve:f64:unit-dependent", format!("columns scaled by 2^{:?}: solve = {:?}, expected the unscaled solution with x_j * 2^-c_j = {:?}; {}", cs, x1, want, desc())); }
+            // (the determinant is a running product of pivots: its partial products must be representable as well)
+            let (pos, neg): (i32, i32) = (cs.iter().filter(|c| **c > 0).sum(), cs.iter().filter(|c| **c < 0).sum());
+            if pos < 850 && neg > -850 && d1.to_bits() != dwant.to_bits() && d1 != dwant { st.violation("C04:det:f64:unit-dependent", format!("columns scaled by 2^{:?}: det = {:e}, expected {:e}; {}", cs, d1, dwant, desc())); }
+        }
+        o => st.violation("C04:solve:f64:unit-dependent", format!("columns scaled by 2^{:?}: {} although the unscaled system was solved; {}", cs, o.describe(), desc())),
+    }
+    st.count("growth-and-units-cases");
+    st.nontrivial(hmix(hash_str("growth-units"), rng.u64()));
+}
+
 fn history_case(st: &mut Stats, rng: &mut Rng) {
     st.next_case();
     let n = rng.usize(1, 7);
@@ -427,7 +491,7 @@ pub fn run(ctx: &Ctx) -> Report {
             judge_exact::<CRat>(st, rng, CLASSES[class], &dc, m1, m2, padc, |r| CRat::new(Rat::int(r.int(-5, 5)), Rat::int(r.int(-5, 5))));
             judge_f64(st, rng, CLASSES[class], &d, m1, m2);
             judge_cmplx(st, rng, CLASSES[class], &dc, m1, m2);
-            history_case(st, rng);
+            history_case(st, rng); for _ in 0..6 { growth_and_units(st, rng); }
             history_case(st, rng);
         }
     });
